@@ -1,6 +1,7 @@
 (* C18 — the stack extension is gated by its feature flag, and only it. *)
 From Lace Require Import Word Machine Isa Vm VmProofs Asm AsmFeat.
-From Lace Require Examples.
+From Lace Require Examples Feat.
+From Coq Require Import String.
 Open Scope N_scope.
 
 (** Assembler: with the flag off, the result is either exactly the flag-on result (same image or
@@ -40,3 +41,25 @@ Example C18_nonvacuous :
   wf Examples.ex_state /\ (54336 < W /\ 54336 / 4096 = 13) /\
   Forall (fun aw : N * N => snd aw / 4096 <> 13) (snd (run true 10 Examples.ex_state nil)).
 Proof. split; [exact Examples.ex_wf|]. split; [exact Examples.ex_stack_word|exact Examples.ex_no_stack_fetch]. Qed.
+
+(** The flag as it is written on the command line (Feat.v models `Features::from_str`, the value
+    parser behind -f / --features): the list is split at commas and empty elements are skipped; the
+    extension is ON exactly when the remaining elements are the single name `stack`, OFF exactly
+    when none remains, and anything else — another name, another letter case, blanks around the
+    name, `stack` twice — is refused. *)
+Theorem C18_flag_list : forall s,
+  Feat.parse_features s =
+  match Feat.named s with
+  | nil => Some false
+  | cons w nil => if Feat.is_stack w then Some true else None
+  | _ => None
+  end.
+Proof. exact Feat.parse_features_spec. Qed.
+Print Assumptions C18_flag_list.
+
+Example C18_flag_list_nonvacuous :
+  Feat.parse_features (str "stack") = Some true /\ Feat.parse_features (str ",stack,,") = Some true /\
+  Feat.parse_features (str "") = Some false /\ Feat.parse_features (str ",,") = Some false /\
+  Feat.parse_features (str "stack,stack") = None /\ Feat.parse_features (str "Stack") = None /\
+  Feat.parse_features (str " stack") = None /\ Feat.parse_features (str "stack,heap") = None.
+Proof. exact Feat.ex_features. Qed.
